@@ -2,6 +2,7 @@
 # usage: tools/dbg.sh <patch|seed id|-> <python file>   — run a python snippet with `fb` = FactBase("full") of /tmp/dev_wt (+patch)
 P=$1; S=$2
 WT=${RF_WT:-/tmp/dev_wt}
+[ -d "$WT" ] || git -C /repo worktree add -q --detach "$WT" HEAD   # scratch worktree (remove with: git -C /repo worktree remove --force $WT)
 git -C $WT checkout -q -- . && git -C $WT clean -fdq
 if [ "$P" != "-" ]; then
   [ -f "$P" ] || { [ -f /verif/refactors/$P/patch.diff ] && P=/verif/refactors/$P/patch.diff; }
